@@ -121,6 +121,8 @@ func exprForms() []form {
 		{name: "for-tuple", text: `[for x in l : x]`}, {name: "for-object", text: `{for k, x in o : k => x}`},
 		{name: "for-if", text: `[for i, x in l : "${i}${x}" if x != "x"]`}, {name: "for-group", text: `{for x in l : x => x...}`},
 		{name: "splat-full", text: `l2[*].a`}, {name: "splat-attr", text: `l2.*.a`}, {name: "splat-index", text: `l2[*].a[0]`}, {name: "splat-bare", text: `l[*]`},
+		{name: "splat-attr-legacy-index", text: `l2.*.a.0`}, {name: "splat-attr-legacy-only", text: `l3.*.0`}, {name: "splat-full-legacy", text: `l2[*].a.0`},
+		{name: "legacy-index-attr", text: `l2.0.a`}, {name: "call-legacy-index", text: `concat(l, l).0`},
 		{name: "paren", text: `(v)`}, {name: "paren-multi", text: "(\n  1\n  +\n  2\n)", multi: true},
 		{name: "heredoc", text: "<<EOT\nhello ${v}\n  é" + eacute + " x\nEOT", heredoc: true, multi: true},
 		{name: "heredoc-flush", text: "<<-EOT\n    a\n      b ${v}\n    EOT", heredoc: true, multi: true},
